@@ -152,6 +152,9 @@ class IOBase(Communicator):
         """
         self._conn.disconnect()
         self._conn = None
+        # read_is_connected calls the reconnect callbacks only after an error was noted
+        # (to be done before is_connected is visibly False, else a reconnect may slip in)
+        self._last_error = self._last_error or 'disconnected'
         self.is_connected = False
 
     def doPoll(self):
